@@ -190,8 +190,13 @@ func (e *Engine) runProperty(prop string, cfg *PropCfg, scfg SolveCfg) *checkRun
 		cr.units = append(cr.units, res)
 		if res.Failed != "" {
 			cr.outOfReach = append(cr.outOfReach, res.Func+": "+res.Failed)
+			// a unit that cannot be analysed stands for all of its obligations: one pseudo-obligation carries the verdict
+			cr.obls = append(cr.obls, &Obligation{ID: e.funcKeyShort(pu.fn) + "/unit/analysable#0", Class: "unit", Func: e.funcKey(pu.fn),
+				Desc: "the function can be analysed against its contract: " + res.Failed, Result: "unknown", Solver: "gowp", Output: res.Failed})
 			continue
 		}
+		cr.obls = append(cr.obls, &Obligation{ID: e.funcKeyShort(pu.fn) + "/unit/analysable#0", Class: "unit", Func: e.funcKey(pu.fn),
+			Desc: "the function can be analysed against its contract", Result: "unsat", Solver: "gowp"})
 		spec := e.specFor(pu.fn)
 		used := false
 		for _, o := range res.Obls {
